@@ -987,6 +987,13 @@ def _ms_expand(seed, tier):
             yield {"self": g, "uri_in": u}
 
 
+@domain("C18.expand_pair_all_are_expansions")
+def _ms_members(seed, tier):
+    for case in _ms_expand(seed, tier):
+        for i in (0, 1, 2):
+            yield {"g": case["self"], "u": case["uri_in"], "i": i}
+
+
 @domain("C18.triples_dispatch")
 def _ms_triples(seed, tier):
     for c in _ms_convs(seed, tier):
